@@ -31,14 +31,15 @@ func (w *c12w) str32(s string) { w.u32(uint32(len(s))); w.b = append(w.b, s...) 
 // c12Len picks a length from the boundary set of the tier.
 func c12Len(name string, set []int) int { return set[vrt.Choice(name+".len", len(set))] }
 
-// c12S makes a string of n bytes: fully symbolic when short, otherwise
-// symbolic at both ends around a constant filler (length handling, not
-// content, is what long strings exercise).
+// c12S makes a string of n bytes: fully symbolic when short, otherwise two
+// symbolic bytes followed by a constant filler (length handling, not content,
+// is what long strings exercise; the symbolic head makes offset shifts and
+// multi-byte characters visible).
 func c12S(name string, n int) string {
 	if n <= 6 {
 		return vrt.String(name, n)
 	}
-	return vrt.String(name+".head", 2) + strings.Repeat("x", n-4) + vrt.String(name+".tail", 2)
+	return vrt.String(name+".head", 2) + strings.Repeat("x", n-2)
 }
 
 var c12Short = []int{0, 1, 3}
